@@ -87,6 +87,11 @@ def _main(a):
             c = (lr.get("checks") or {}).get(meta["property"], {})
             rate = lr.get("rate")
             rtxt = (" rate=%d/%d" % (sum(1 for v in rate.values() if v["rc"] == 1), len(rate))) if rate else ""
+            if meta.get("expect") == "quiet":
+                rcs = dict((k, v.get("rc")) for k, v in (lr.get("checks") or {}).items())
+                print("%-48s BENIGN tests=%s demo(clean/patched)=%s/%s checks=%s %s" % (sid, lr.get("tests_rc"), lr.get("demo_clean_rc"), lr.get("demo_patched_rc"), rcs,
+                                                                                     "ALL QUIET" if all(v == 0 for v in rcs.values()) else "ALARM/ERROR"), flush=True)
+                continue
             print("%-48s confirmed=%s caught=%s rc=%s%s %s" % (sid, lr.get("confirmed"), lr.get("caught"), c.get("rc"), rtxt, c.get("first", "")[:110]), flush=True)
     write_table()
     print("done in %.0fs" % (time.time() - t0))
